@@ -208,8 +208,12 @@ class Operation(ABC):
                 backed_grad = np.array(backed_grad, copy=False)
 
             if self.where is not True:
-                # (0-d array) * (0-d mask) produces a numpy scalar, not an array
-                backed_grad = np.asarray(backed_grad * self.where)
+                # Masked-out elements take no part in the operation: they receive exactly
+                # zero - also where the local derivative is not finite there, as in
+                # `log(x, where=x > 0)` (a product with the mask would yield inf * 0 = nan)
+                backed_grad = np.asarray(
+                    np.where(self.where, backed_grad, np.zeros((), dtype=backed_grad.dtype))
+                )
 
             backed_grad = self.grad_post_process_fn(backed_grad, var.shape)
             assert backed_grad.shape == var.shape, (backed_grad.shape, var.shape)
